@@ -28,7 +28,7 @@ package executor
 //@ func Executor.traverse
 //@   lenient
 //@   safety off
-//@   modifies alloc, nStart, nTraversed, pauseTokens
+//@   modifies alloc, nStart, nTraversed, pauseTokens, lastExecPanicErr
 //@   callsite Executor.startRemoteRequest: assert nStart == old(nStart) && dyntype(result.Err) == typetag("graphsync.RemoteMissingBlockErr")
 //@   -- C02: on that first miss the loader is switched online before the remote is asked, and the load is retried after
 //@   callsite ReconciledLoader.SetRemoteOnline: assert arg0 == true && nStart == old(nStart)
@@ -58,7 +58,22 @@ package executor
 //@ func Executor.ExecuteTask
 //@   lenient
 //@   safety off
-//@   modifies alloc, pauseTokens, nStart, nTraversed
+//@   modifies alloc, pauseTokens, nStart, nTraversed, lastExecPanicErr
 //@   callsite Manager.SendRequest: assert arg0 == requestTask.P
 //@   callsite ReconciledLoader.SetRemoteOnline: assert arg0 == false
 //@   callsite Manager.ReleaseRequestTask: assert arg0 == pid && arg1 == task && arg2 == err
+
+//@ -- ============================ C22: a panic on the worker fails this request ============================
+//@ ghost lastExecPanicErr error    -- result of the executor's most recent panic-handler call
+//@ func Executor$panicHandler
+//@   assumed
+//@   modifies lastExecPanicErr
+//@   ghost lastExecPanicErr := result
+//@ -- the deferred recovery of traverse: whatever recover() yields goes to the panic handler, and a recovered panic becomes
+//@ -- the error the traversal returns (which ExecuteTask reports as this request's error)
+//@ func Executor.traverse.func1
+//@   lenient
+//@   safety off
+//@   modifies lastExecPanicErr
+//@   callsite Executor$panicHandler argis "recover()": assert true
+//@   ensures lastExecPanicErr != nil ==> err == lastExecPanicErr
